@@ -528,6 +528,8 @@ func checkC13(c *Ctx, r *Report) {
 		})
 	}
 
+	checkContextUndiminished(c, r)
+
 	// (e) other blocking primitives
 	r.Rule("no-other-blocking", "library code contains no sleep, channel operation, select, lock/wait or goroutine start; the only blocking primitives are the deadline-guarded socket calls", 0)
 	blockingCalls := map[string]bool{"time.Sleep": true, "time.After": true, "time.Tick": true, "time.NewTimer": true, "time.NewTicker": true,
@@ -674,4 +676,92 @@ func checkRetryBoundedByContext(c *Ctx, r *Report) {
 		r.Check(ok, pname+"|Retry(WithContext(ctx))", rs.Call.Pos(), "bounded by the caller's context", why)
 	}
 
+}
+
+// ctxShortened: v is (possibly through φ's, conversions and single-store locals) the result of
+// context.WithTimeout / WithDeadline.
+func ctxShortened(v ssa.Value) bool {
+	seen := map[ssa.Value]bool{}
+	var walk func(v ssa.Value) bool
+	walk = func(v ssa.Value) bool {
+		if v == nil || seen[v] {
+			return false
+		}
+		seen[v] = true
+		v = stripConv(v)
+		switch x := v.(type) {
+		case *ssa.Extract:
+			if call, ok := x.Tuple.(*ssa.Call); ok && x.Index == 0 {
+				switch calleeName(&call.Call) {
+				case fnCtxWithTimeout, fnCtxWithDeadline, "context.WithTimeoutCause", "context.WithDeadlineCause":
+					return true
+				case "context.WithCancel", "context.WithCancelCause":
+					return walk(call.Call.Args[0])
+				}
+			}
+		case *ssa.Call:
+			if calleeName(&x.Call) == "context.WithValue" {
+				return walk(x.Call.Args[0])
+			}
+		case *ssa.Phi:
+			for _, e := range x.Edges {
+				if walk(e) {
+					return true
+				}
+			}
+		case *ssa.UnOp:
+			if x.Op == token.MUL {
+				if al, ok := x.X.(*ssa.Alloc); ok {
+					for _, ref := range *al.Referrers() {
+						if st, ok := ref.(*ssa.Store); ok && st.Addr == ssa.Value(al) && walk(st.Val) {
+							return true
+						}
+					}
+				}
+			}
+		}
+		return false
+	}
+	return walk(v)
+}
+
+// checkContextUndiminished: the per-attempt timeout is for one attempt. A context shortened
+// with WithTimeout/WithDeadline may be handed to Transport.Send only; a command, a handshake
+// step, a retry loop or a whole helper run under it would give up (or stop retrying temporary
+// codes and undecodable replies) long before the caller's context says so — rule shared by
+// C10 ("keeps re-sending until a final answer arrives", bounded by the caller's context only)
+// and C13.
+func checkContextUndiminished(c *Ctx, r *Report) {
+	r.Rule("context-undiminished", "a context derived with WithTimeout/WithDeadline is passed to Transport.Send only (one attempt); commands, handshake steps and retry loops run under the caller's own context", 3)
+	n := 0
+	for _, fn := range c.LibFuncs() {
+		fn := fn
+		rawInstrs(fn, false, func(in ssa.Instruction) {
+			cc := asCall(in)
+			if cc == nil {
+				return
+			}
+			name := calleeName(cc)
+			if strings.HasPrefix(name, "context.") {
+				return
+			}
+			for _, a := range cc.Args {
+				if !isContextType(a.Type()) {
+					continue
+				}
+				short := ctxShortened(a)
+				if isCallTo(in, fnTransportSend) {
+					n++
+					r.OK(c.FnName(fn)+"|Send(ctx)", in.Pos(), "per-attempt context goes to the transport")
+					continue
+				}
+				if short {
+					r.Bad(c.FnName(fn)+"|"+shortName(name)+"(shortened ctx)", in.Pos(), "a context cut down with WithTimeout/WithDeadline is passed to "+shortName(name)+": everything that call does — retries of temporary codes and undecodable replies included — ends with that timeout instead of with the caller's context")
+				}
+			}
+		})
+	}
+	if n == 0 {
+		r.Lost("Transport.Send call sites")
+	}
 }
